@@ -18,6 +18,8 @@ EXHAUSTIVE = {"quick": True, "thorough": True}
 CASE_TIMEOUT = 10
 
 ATOMS = ["a", "b", "c", "f(x)", "f(x, 2)"]
+# call atoms that differ only in the VALUE of a keyword argument are different atoms
+KW_ATOMS = ["h(x, k=1)", "h(x, k=2)", "a", "h(x, m=1)"]
 OPS = ["+", "-", ":", "*", "/"]
 
 
@@ -38,7 +40,8 @@ def _rand_tree(rng, depth):
     if depth == 0 or rng.random() < 0.25:
         r = rng.random()
         if r < 0.8:
-            return rng.choice(["a", "b", "c", "d", "f(x)", "f(x, 2)", "g(a + 1, k=b)", "`a b`"])
+            return rng.choice(["a", "b", "c", "d", "f(x)", "f(x, 2)", "g(a + 1, k=b)", "`a b`", "h(x, k=1)", "h(x, k=2)",
+                               "bs(x, df=3)", "bs(x, df=4)"])
         return rng.choice(["a:b", "b:a", "a:b:c"])
     r = rng.random()
     if r < 0.08 and depth <= 2:
@@ -67,6 +70,14 @@ def gen(rng, tier):
     if tier == "thorough":
         for t in _trees(3, ["a", "b", "f(x, 2)"], OPS):
             add(f"y ~ {t}", "tree3")
+    for n in range(1, 3):
+        for t in _trees(n, KW_ATOMS, OPS):
+            if t.count("h(") >= 2:
+                add(f"y ~ {t}", f"kwtree{n}")
+    for e in ["h(x, k=1) + h(x, k=2)", "0 + h(x, k=1) + h(x, k=2)", "h(x, k=1) + h(x, m=1)"]:
+        for g in ["g", "g + h2", "h(g, k=1) + h(g, k=2)"]:
+            add(f"y ~ ({e} | {g})", "kweffect")
+    add("y ~ (h(x, k=1) + h(x, k=2) + a)**2", "power")
     # effect sums crossed with grouping forms
     items = ["x", "f", "x:f", "0", "1"]
     groupings = ["g", "g:h", "g + h", "g/h", "g*h"]
